@@ -1,12 +1,43 @@
-(* C16 — with max_concurrent = k at no instant more than k jobs are launched and unfinished. *)
-From Pydra Require Import Base.Prelude Base.SchedBase Model.Sched Spec.Sched Proofs.SchedG.
+(* C16 — with max_concurrent = k, at no instant are more than k jobs launched and unfinished. *)
+From Pydra Require Import Base.Prelude Base.SchedBase Model.Sched Spec.Sched Proofs.SchedG Proofs.SchedI.
 
-Definition C16_full_statement : Prop :=
+Definition C16_statement (vr : variant) : Prop :=
   forall (V : Type) (body : nat -> nat -> list (list (option V)) -> V) (fails : job -> bool)
-         (g : graph) (k : nat),
+         (g : graph) (k : nat) (orc : list oracle_step) (fuel : nat),
     wf_graph g ->
-    forall orc fuel, concurrency_bounded k (event_log (run_async V body fails repaired g (Some k) orc fuel)).
+    concurrency_bounded k (event_log (run_async V body fails vr g (Some k) orc fuel)).
+
+Definition C16_full_statement : Prop := C16_statement repaired.
 
 Theorem C16_full : C16_full_statement.
-Proof. intros V body fails g k WF orc fuel. apply async_concurrency; auto. Qed.
+Proof. intros V body fails g k orc fuel WF. apply async_concurrency; auto. Qed.
 Print Assumptions C16_full.
+
+(* the sequential loop runs one job at a time whatever max_concurrent is *)
+Theorem C16_sync :
+  forall (V : Type) (body : nat -> nat -> list (list (option V)) -> V) (fails : job -> bool)
+         (vr : variant) (g : graph) (kmax : option nat) (fuel : nat),
+    fix14 vr = true -> wf_graph g ->
+    concurrency_bounded 1 (event_log (run_sync V body fails vr g kmax fuel)).
+Proof. intros. apply sync_one_at_a_time; assumption. Qed.
+Print Assumptions C16_sync.
+
+(* Finding F16 (repaired by a fix: commit): on the code as pinned the statement is false.
+   One node split 4 ways, k = 2: both launched jobs are launched, one completes while the other is
+   seen running (it leaves `queued`), the next poll returns two more jobs: 3 unfinished launches. *)
+Definition f16_graph : graph := [mkNode 0 [] 4].
+Definition f16_oracle : list oracle_step := [mkStep [0] [true]].
+
+Theorem C16_refuted : ~ C16_statement pinned.
+Proof.
+  intros H.
+  pose proof (H unit (fun _ _ _ => tt) (fun _ => false) f16_graph 2 f16_oracle 2 eq_refl) as B.
+  specialize (B [ELaunch (0, 0); ELaunch (0, 1); EFinish (0, 0) true; ELaunch (0, 2); ELaunch (0, 3)]
+                [EFinish (0, 1) true]).
+  vm_compute in B. specialize (B eq_refl). lia.
+Qed.
+Print Assumptions C16_refuted.
+
+Example C16_repaired_same_oracle :
+  peak (event_log (run_async unit (fun _ _ _ => tt) (fun _ => false) repaired f16_graph (Some 2) f16_oracle 20)) = 2.
+Proof. vm_compute. reflexivity. Qed.
